@@ -4360,9 +4360,62 @@ static void large_case(uint64_t L, uint64_t c, vf_rng *r)
 #define LG_MOD_QUICK 41
 #define LG_MOD_THOROUGH 1201
 static uint64_t vf_ncases(int tier) { return tier ? 1200000 : 6000; }
+/* Nodes that change QUEUES and then meet an element-size change. a_que_swap_ takes two elements and no queue, so it exchanges elements of two queues of equal element size
+   (sound on the pinned tree); what a queue believes about "its" nodes (how much storage each has) is then no longer true of all of them. The scenario: A holds elements of
+   S1 bytes, B of S2 < S1; A shrinks to S2 and recycles; one element of A and one of B change places; A grows to S3 with S2 < S3 <= S1, recycles again and is filled, every
+   element written with a_que_siz() bytes; both queues are walked and compared with what was written. An element handed out with less storage than the queue's element
+   size is a heap overflow at the harness's own write (ASan) or shows up in the neighbour's bytes (seeded change C05-N: setz skips the node reallocation while the new size
+   is within what "every node of this queue" once had). Random histories meet the five ordered steps over two objects and three related sizes too rarely. */
+static void que_cross_size_scenario(vf_rng *r)
+{
+    static size_t const S[] = {1, 4, 8, 16, 24, 40, 64, 200};
+    size_t const i2 = (size_t)vf_below(r, 6), i1 = i2 + 1 + (size_t)vf_below(r, 7 - i2), s2 = S[i2], s1 = S[i1];
+    size_t const s3 = vf_chance(r, 1, 3) ? s1 : s2 + 1 + (size_t)vf_below(r, s1 - s2);
+    unsigned const na = 4 + (unsigned)vf_below(r, 6), nb = 4 + (unsigned)vf_below(r, 6);
+    a_que *A = a_que_new(s1), *B = a_que_new(s2);
+    unsigned char tagB[16];
+    unsigned i;
+    void *ea, *eb;
+    vf_log("two queues, element sizes %zu and %zu; A shrinks to %zu, one element of each changes places, A grows to %zu and is refilled", s1, s2, s2, s3);
+    for (i = 0; i < na; ++i) { memset(a_que_push_back(A), (int)(0x10 + i), a_que_siz(A)); }
+    for (i = 0; i < nb; ++i) { memset(a_que_push_back(B), (int)(0x40 + i), a_que_siz(B)); }
+    if (a_que_setz(A, s2, NULL) != A_SUCCESS) { vf_viol("que_setz/unexpected-error", "shrinking %zu -> %zu", s1, s2); goto out; }
+    for (i = 0; i < na; ++i) { memset(a_que_push_back(A), (int)(0x20 + i), a_que_siz(A)); }
+    ea = a_que_at(A, 1);
+    eb = a_que_at(B, (a_diff)(nb - 2));
+    a_que_swap_(ea, eb);
+    /* B now holds A's element (value 0x21) at position nb-2, A holds B's (0x40 + nb - 2) at position 1 */
+    for (i = 0; i < nb; ++i) { tagB[i] = (unsigned char)(i == nb - 2 ? 0x21 : 0x40 + i); }
+    if (*(unsigned char *)a_que_at(A, 1) != (unsigned char)(0x40 + nb - 2) || *(unsigned char *)a_que_at(B, (a_diff)(nb - 2)) != 0x21) { vf_viol("que_swap_/elements-of-two-queues-did-not-change-places", "sizes %zu", s2); goto out; }
+    if (a_que_setz(A, s3, NULL) != A_SUCCESS) { vf_viol("que_setz/unexpected-error", "growing %zu -> %zu", s2, s3); goto out; }
+    for (i = 0; i < na + 3; ++i)
+    {
+        void *p = a_que_push_back(A);
+        if (!p) { vf_viol("que_push_back/unexpected-null", "after setz(%zu)", s3); goto out; }
+        memset(p, (int)(0x60 + i), a_que_siz(A)); /* the caller fills ITS element: a_que_siz() bytes */
+    }
+    ++vf.evals;
+    VF_COUNT("que-nodes-changed-queues-then-element-size-changed");
+    for (i = 0; i < na + 3; ++i)
+    {
+        unsigned char const *p = (unsigned char const *)a_que_at(A, (a_diff)i);
+        for (size_t b = 0; b < s3; ++b) { if (p[b] != (unsigned char)(0x60 + i)) { vf_viol("que/element-bytes-changed-by-a-neighbour/after-cross-queue-swap", "A element %u byte %zu of %zu is 0x%02X", i, b, s3, p[b]); goto out; } }
+    }
+    for (i = 0; i < nb; ++i)
+    {
+        unsigned char const *p = (unsigned char const *)a_que_at(B, (a_diff)i);
+        for (size_t b = 0; b < s2; ++b) { if (p[b] != tagB[i]) { vf_viol("que/element-bytes-changed-by-a-neighbour/after-cross-queue-swap", "B element %u byte %zu of %zu is 0x%02X, written 0x%02X (B was not operated on)", i, b, s2, p[b], tagB[i]); goto out; } }
+    }
+    if (a_que_num(A) != na + 3 || a_que_num(B) != nb) { vf_viol("que/count-after-cross-queue-swap", "A %zu (expected %u), B %zu (expected %u)", (size_t)a_que_num(A), na + 3, (size_t)a_que_num(B), nb); }
+out:
+    a_que_die(A, NULL);
+    a_que_die(B, NULL);
+}
+
 static void vf_case(uint64_t c, vf_rng *r)
 {
     uint64_t const mod = vf.tier ? LG_MOD_THOROUGH : LG_MOD_QUICK;
+    if (c % 4 == 2) { vf_rng qr; vf_rng_seed(&qr, vf.seed, vf_hash_str("C05-cross-size"), c); for (int i = 0; i < 4; ++i) { que_cross_size_scenario(&qr); } }
     if (c % mod == mod - 1)
     {
         large_case(c / mod, c, r);
